@@ -3,6 +3,7 @@ import Driver.Tree
 import Driver.History
 import Driver.Io
 import Driver.Totp
+import Driver.Key
 /-!
 `kpdriver`: reads one JSON case per line on stdin, runs the Lean model (and, where it differs, the reference
 specification) on the case's inputs and prints one JSON line per case:
@@ -18,6 +19,7 @@ def dispatch (op : String) (j : Json) : R Json :=
   | "ioread" => opIoRead j
   | "iowrite" => opIoWrite j
   | "totp" => opTotp j
+  | "key" => opKey j
   | "selftest" => opSelfTest j
   | _ => throw s!"unknown op {op}"
 
